@@ -12,6 +12,12 @@ Inductive go_step : Type :=
 | GStepHang
 | GStepUnrep.     (* a state or message that is not plain JSON data *)
 
+(** one call of a guard as the implementation made it (harness/guardlog.go):
+    the branch's index in the current node's list, the candidate it was given,
+    what it said *)
+Inductive gverdict : Type := GVAccept (b : bindings) | GVReject | GVFail.
+Record gcall : Type := mk_gcall { gl_idx : nat; gl_cand : option bindings; gl_v : gverdict }.
+
 Record scase : Type := mk_scase {
   sc_spec : aspec;
   sc_st : state;
@@ -19,7 +25,8 @@ Record scase : Type := mk_scase {
   sc_go : go_step;
   sc_intact : bool;      (* deep snapshots of every argument unchanged (two runs) *)
   sc_shared : bool;      (* a returned state shares its bindings map with the input *)
-  sc_repeat : bool       (* two identical calls gave equal results *)
+  sc_repeat : bool;      (* two identical calls gave equal results *)
+  sc_glog : option (list gcall)   (* the guard calls of the first run, in order; None = not recorded *)
 }.
 
 Definition err_class (e : option step_err) : go_err :=
@@ -56,11 +63,79 @@ Definition step_agrees (proj : stride -> stride -> bool) (c : scase) : bool :=
 Definition step_mismatches (cases : list scase) : list nat :=
   bad_indexes (fun c => negb (step_agrees stride_eqb c)) 0 cases.
 
+(** The guard protocol of Branch.try, checked on the calls the implementation
+    made - also for the steps whose chosen candidate depends on the order in
+    which the matcher listed the candidates (those the comparison above
+    skips).  Branches are visited in order; only the last call may accept or
+    fail (the loop stops there, and so does the step's search); every call
+    says what the model's guard says about that candidate ([guard_on]:
+    FuncAction.Exec around the rendered program); an accepting last call
+    decides the step: To = (the branch's target for those bindings, those
+    bindings) and no error; a failing last call makes the step fail. *)
+Definition says_of (v : gverdict) : guard_says :=
+  match v with GVAccept b => GAccept b | GVReject => GReject | GVFail => GFail end.
+
+Definition node_branches (c : scase) : list (branch act) :=
+  match find_node (st_node (sc_st c)) (sp_nodes (sc_spec c)) with
+  | Some n => match nd_branching n with Some bg => bg_branches bg | None => [] end
+  | None => []
+  end.
+
+Fixpoint glog_calls_ok (brs : list (branch act)) (log : list gcall) (prev : nat) : bool :=
+  match log with
+  | [] => true
+  | gc :: r =>
+      Nat.leb prev (gl_idx gc)
+      && match nth_error brs (gl_idx gc) with
+         | Some b =>
+             match br_guard b with
+             | Some g => guard_says_eqb (guard_on act run_act g (gl_cand gc)) (says_of (gl_v gc))
+             | None => false
+             end
+         | None => false
+         end
+      && match r with
+         | [] => true
+         | _ => match gl_v gc with GVReject => true | _ => false end
+         end
+      && glog_calls_ok brs r (gl_idx gc)
+  end.
+
+Definition glog_final_ok (c : scase) (brs : list (branch act)) (log : list gcall) : bool :=
+  match last (map Some log) None with
+  | None => true
+  | Some gc =>
+      match gl_v gc, sc_go c with
+      | GVReject, _ => true
+      | GVAccept b', GStep (Some sd) GNone =>
+          match nth_error brs (gl_idx gc), sd_to sd with
+          | Some b, Some st' =>
+              state_eqb st' (copy_state (mk_state (target act b b') (Some b')))
+          | _, _ => false
+          end
+      | GVAccept _, _ => false
+      | GVFail, GStep _ GNone => false
+      | GVFail, _ => true
+      end
+  end.
+
+Definition glog_ok (c : scase) : bool :=
+  match sc_glog c with
+  | None => true
+  | Some log =>
+      let brs := node_branches c in
+      glog_calls_ok brs log 0 && glog_final_ok c brs log
+  end.
+Definition glog_violations (cases : list scase) : list nat :=
+  bad_indexes (fun c => negb (glog_ok c)) 0 cases.
+Definition glog_multi (cases : list scase) : nat :=
+  count_true (fun c => match sc_glog c with Some (_ :: _ :: _) => true | _ => false end) cases.
+
 (** C04: To (node, bindings), consumed flag, error class *)
 Definition c04_proj (a b : stride) : bool :=
   opt_eqb state_eqb (sd_to a) (sd_to b) && opt_eqb json_eqb (sd_consumed a) (sd_consumed b).
 Definition c04_violations (cases : list scase) : list nat :=
-  bad_indexes (fun c => negb (step_agrees c04_proj c)) 0 cases.
+  bad_indexes (fun c => negb (step_agrees c04_proj c) || negb (glog_ok c)) 0 cases.
 Definition c04_nontrivial (cases : list scase) : nat :=
   count_true (fun c => match so_stride (model_step c) with
                        | Some sd => match sd_to sd with Some _ => true | None => false end
